@@ -22,8 +22,10 @@ impl serde::ser::Error for RecErr { fn custom<T: std::fmt::Display>(m: T) -> Sel
 fn float_text64(v: f64) -> String {
     match json_syntax::NumberBuf::try_from(v) { Ok(n) => format!("F{};", n.as_str()), Err(_) => "Fnull;".into() }
 }
+/// an f32 is written `G…;` (the model reads it as the same float datum; a line can then be re-executed
+/// with the float of the right width)
 fn float_text32(v: f32) -> String {
-    match json_syntax::NumberBuf::try_from(v) { Ok(n) => format!("F{};", n.as_str()), Err(_) => "Fnull;".into() }
+    match json_syntax::NumberBuf::try_from(v) { Ok(n) => format!("G{};", n.as_str()), Err(_) => "Gnull;".into() }
 }
 
 pub struct RecSeq { head: String, items: String }
@@ -121,6 +123,39 @@ pub struct Ints { pub a: i8, pub b: i16, pub c: i32, pub d: i64, pub e: u8, pub 
 #[derive(Serialize, Deserialize, Debug, Clone)]
 pub struct Floats { pub a: f32, pub b: f64, pub c: Vec<f64>, pub d: Option<f32> }
 
+/// the type descriptor of each family type: what `probe::P` must reproduce
+pub trait Desc { fn desc() -> crate::probe::DTy; }
+fn pd(s: &str) -> crate::probe::DTy { crate::probe::parse_dty(s).expect("descriptor") }
+fn n(s: &str) -> String { cps_inner(s) }
+fn k_desc() -> String { format!("e[{};n{};n{};n]", n("A"), n("B"), n("c c")) }
+fn e_desc(depth: usize) -> String {
+    let nested = if depth == 0 { String::new() } else { format!("{};w{}", n("Nested"), e_desc(depth - 1)) };
+    format!("e[{};n{};wU8{};t[I1s]{};r[{};b{};qU4]{}{};wo{}]", n("Unit"), n("New"), n("Tup"), n("Str"), n("x"), n("y"), nested, n("Opt"), k_desc())
+}
+fn r_desc(depth: usize) -> String {
+    let b = if depth == 0 { "ob".to_string() } else { format!("o{}", r_desc(depth - 1)) };
+    format!("r[{};I8{};{}{};q{}{};msU2{};t[U2c]{};n{};s{};N{};wI4{};T[U1sob]]", n("a"), n("b"), b, n("c"), e_desc(4), n("d"), n("e"), n("f"), n("g"), n("h"), n("i"), n("j"))
+}
+impl Desc for K { fn desc() -> crate::probe::DTy { pd(&k_desc()) } }
+impl Desc for E { fn desc() -> crate::probe::DTy { pd(&e_desc(4)) } }
+impl Desc for R { fn desc() -> crate::probe::DTy { pd(&r_desc(3)) } }
+impl Desc for Maps { fn desc() -> crate::probe::DTy { pd(&format!("r[{};mI4s{};mcU1{};m{}b{};mU8n{};mwsI1]", n("by_int"), n("by_char"), n("by_variant"), k_desc(), n("by_u64"), n("by_new"))) } }
+impl Desc for Ints { fn desc() -> crate::probe::DTy { pd(&format!("r[{};I1{};I2{};I4{};I8{};U1{};U2{};U4{};U8]", n("a"), n("b"), n("c"), n("d"), n("e"), n("f"), n("g"), n("h"))) } }
+impl Desc for Floats { fn desc() -> crate::probe::DTy { pd(&format!("r[{};f4{};f8{};qf8{};of4]", n("a"), n("b"), n("c"), n("d"))) } }
+impl Desc for (Vec<Option<K>>, BTreeMap<String, Vec<(u8, char)>>, [i16; 3], Option<u8>) { fn desc() -> crate::probe::DTy { pd(&format!("t[qo{}msqt[U1c]t[I2I2I2]oU1]", k_desc())) } }
+
+/// the descriptor-driven client against the real derive-generated `Deserialize` of `T`
+fn probe_vs_derive<T: Serialize + for<'de> Deserialize<'de> + Desc>(v: &Value, out: &mut Out) {
+    use serde::de::DeserializeSeed;
+    let ty = T::desc();
+    let real = match json_syntax::from_value::<T>(v.clone()) { Ok(y) => format!("ok {}", y.serialize(Rec).unwrap_or_default().replace('G', "F")), Err(e) => format!("E {}", crate::probe::err_class(&e.to_string())) };
+    let probe = crate::probe::show_de(&crate::probe::P(&ty).deserialize(v.clone()));
+    let nm = |s: &str| -> String { match s.strip_prefix("ok ").and_then(crate::probe::parse_sd) { Some(d) => format!("ok {}", crate::probe::show_sd(&crate::probe::norm_maps(&d))), None => s.to_string() } };
+    let (real, probe) = (nm(&real), nm(&probe));
+    out.oracle(real == probe, "the descriptor-driven client deserializes like the derive-generated Deserialize of the same shape", || format!("{} at {}: derive {} / probe {}", show_value(v), crate::probe::show_dty(&ty), real, probe));
+    out.count(if real.starts_with("ok") { "probe_vs_derive_ok" } else { "probe_vs_derive_err" });
+}
+
 fn feq64(a: f64, b: f64) -> bool { a.to_bits() == b.to_bits() || (a == 0.0 && b == 0.0) }
 fn feq32(a: f32, b: f32) -> bool { a.to_bits() == b.to_bits() || (a == 0.0 && b == 0.0) }
 impl PartialEq for Floats {
@@ -209,7 +244,7 @@ fn same_shape(a: &Value, b: &Value) -> bool {
     }
 }
 
-fn one<T: Serialize + for<'de> Deserialize<'de> + PartialEq + std::fmt::Debug>(x: &T, roundtrip: bool, out: &mut Out, lines: &mut Vec<(String, String)>) {
+fn one<T: Serialize + for<'de> Deserialize<'de> + PartialEq + std::fmt::Debug + Desc>(x: &T, roundtrip: bool, out: &mut Out, lines: &mut Vec<(String, String)>) {
     let sdata = match x.serialize(Rec) { Ok(s) => s, Err(e) => { out.oracle(false, "recording serializer", || e.to_string()); return; } };
     let v = json_syntax::to_value(x);
     let reply = match &v { Ok(v) => format!("ok {}", show_value(v)), Err(e) => show_ser_err(e) };
@@ -222,6 +257,8 @@ fn one<T: Serialize + for<'de> Deserialize<'de> + PartialEq + std::fmt::Debug>(x
         out.oracle(v.is_ok() == sj_ok, "to_value(x) succeeds exactly when serde_json::to_value(x) does", || format!("json-syntax {} / serde_json ok={}", reply_brief(&v), sj_ok));
     }
     if let Ok(v) = v {
+        probe_vs_derive::<T>(&v, out);
+        for _ in 0..2 { let w = crate::probe::mutate_value(&mut out.rng, &v); probe_vs_derive::<T>(&w, out); }
         if roundtrip {
             match json_syntax::from_value::<T>(v.clone()) {
                 Ok(y) => out.oracle(&y == x, "from_value(to_value(x)) = x", || format!("{:?} -> {} -> {:?}", x, show_value(&v), y)),
@@ -334,7 +371,13 @@ pub fn exec(rest: &str, out: &mut Out) -> (String, bool) {
             if known { out.known("C17-de-lossy-ulp"); }
             ("ok".into(), true)
         }
-        ("ser", 2) => ("bad-op".into(), false), // only generated together with its datum (see gen)
+        ("ser", 2) => {
+            // replayed from a line (corpus / replay files): the datum is rebuilt from its notation
+            // (`G…;` = an f32) and given to the real serializer
+            let d = match crate::probe::parse_sd(a[1]) { Some(d) => d, None => return ("bad-op".into(), false) };
+            match json_syntax::to_value(&d) { Ok(v) => (format!("ok {}", show_value(&v)), true), Err(e) => (show_ser_err(&e), true) }
+        }
+        ("rt", _) | ("de", _) | ("fromvalm", _) => crate::probe::exec(&a, out),
         ("sj", 2) => {
             let v = match parse_value(a[1]) { Some(v) => v, None => return ("bad-op".into(), false) };
             // json-syntax -> serde_json -> json-syntax
@@ -421,6 +464,7 @@ pub fn gen(out: &mut Out, thorough: bool, focus: &str) {
             { let m: Vec<(&str, u8)> = vec![("a", 1)]; (m.serialize(Rec).unwrap(), match json_syntax::to_value(&m) { Ok(v) => format!("ok {}", show_value(&v)), Err(e) => show_ser_err(&e) }) },
         ];
         for (sd, reply) in extra { let req = format!("serde ser {}", sd); out.cur = req.clone(); out.record(&req, &reply, true); }
+        crate::probe::gen(out, thorough, "C16");
         out.notes.insert("types".into(), "R (recursive struct with Option<Box<R>>, Vec<enum>, map, tuple, unit, unit struct, newtype, tuple struct), E (unit/newtype/tuple/struct/nested variants), Maps (keys: i32, char, unit variant, u64, newtype(String)), Ints (all 8 widths at bounds), Floats (random bit patterns f32/f64, non-finite), tuples/arrays/options".into());
         return;
     }
@@ -439,6 +483,7 @@ pub fn gen(out: &mut Out, thorough: bool, focus: &str) {
             l(format!("serde toval {}", s), out);
             l(format!("serde fromval {}", s), out);
         }
+        crate::probe::gen(out, thorough, "C17");
         return;
     }
     // C18
